@@ -1,6 +1,7 @@
 package main
 
 import (
+	"bytes"
 	"encoding/json"
 	"fmt"
 	"strings"
@@ -72,6 +73,20 @@ func init() {
 			fn := c.Fn
 			f = func(s string) string { return stick.CoerceString(flt(nil, stick.NewSafeValue(s, other), fn)) }
 			ok = flt != nil
+		}
+		if strings.HasPrefix(c.Via, "tpl:") {
+			// an explicit escape with a literal strategy, printed in a template whose NAME selects another content type:
+			// what is printed is what the named escaper emits, nothing is added for the template's own type
+			name := "t." + strings.TrimPrefix(c.Via, "tpl:")
+			env := twig.New(&stick.MemoryLoader{Templates: map[string]string{name: "{{ v|escape('" + c.Fn + "') }}"}})
+			f = func(s string) string {
+				var b bytes.Buffer
+				if err := env.Execute(name, &b, map[string]stick.Value{"v": s}); err != nil {
+					return "ERROR: " + err.Error()
+				}
+				return b.String()
+			}
+			ok = true
 		}
 		if !ok {
 			return nil, fmt.Errorf("unknown escaper %q", c.Fn)
